@@ -10,23 +10,14 @@ Local Open Scope N_scope.
 Definition lib_quote (sep : N) (f : field) : bool := existsb (must_escape sep) f.
 Definition wfield (sep : N) (f : field) : list N := rfield (lib_quote sep f) f.
 
-(* F21: a field the RFC wants escaped (it contains CR) that the library writes bare *)
-Definition f21_field (sep : N) (f : field) : bool := negb (lib_quote sep f) && needs_quote sep f.
+Lemma must_escape_special sep c : must_escape sep c = special sep c.
+Proof. unfold must_escape, special. destruct (c =? DQ), (c =? sep), (c =? LF), (c =? CR); reflexivity. Qed.
 
-Lemma must_escape_special sep c : must_escape sep c = true -> special sep c = true.
-Proof. unfold must_escape, special. rewrite !orb_true_iff. tauto. Qed.
-
-Lemma lib_quote_needs sep f : lib_quote sep f = true -> needs_quote sep f = true.
+(* the library quotes exactly the fields RFC 4180 cannot carry bare *)
+Lemma lib_quote_needs sep f : lib_quote sep f = needs_quote sep f.
 Proof.
-  unfold lib_quote, needs_quote. rewrite !existsb_exists. intros (c & Hin & Hc).
-  exists c. split; [exact Hin | apply must_escape_special; exact Hc].
-Qed.
-
-Lemma no_f21_quote sep f : f21_field sep f = false -> lib_quote sep f = needs_quote sep f.
-Proof.
-  unfold f21_field. intros H. destruct (lib_quote sep f) eqn:E.
-  - symmetry. apply lib_quote_needs. exact E.
-  - cbn in H. symmetry. exact H.
+  unfold lib_quote, needs_quote. induction f as [|c f IH]; [reflexivity|].
+  cbn [existsb]. rewrite must_escape_special, IH. reflexivity.
 Qed.
 
 Lemma find_special_spec sep l :
@@ -54,7 +45,7 @@ Lemma esc_plain sep a : existsb (must_escape sep) a = false -> esc a = a.
 Proof.
   induction a as [|c a IH]; intros H; [reflexivity|].
   cbn [existsb] in H. apply orb_false_iff in H. destruct H as [Hc Ha].
-  unfold must_escape in Hc. rewrite !orb_false_iff in Hc. destruct Hc as [[Hc _] _].
+  unfold must_escape in Hc. rewrite !orb_false_iff in Hc. destruct Hc as [[[Hc _] _] _].
   unfold esc in *. cbn [flat_map]. rewrite Hc. cbn [app]. rewrite IH by exact Ha. reflexivity.
 Qed.
 
@@ -241,36 +232,20 @@ Qed.
 
 (* ---------- the output against RFC 4180 ---------- *)
 
-(* no field of the table is in the F21 class *)
-Definition no_f21 (sep : N) (t : table) : Prop := Forall (Forall (fun f => f21_field sep f = false)) t.
-Definition has_f21 (sep : N) (t : table) : bool := existsb (existsb (f21_field sep)) t.
+Lemma wfield_min sep f : wfield sep f = mfield sep f.
+Proof. unfold wfield, mfield. rewrite lib_quote_needs. reflexivity. Qed.
 
-Lemma no_f21_iff sep t : has_f21 sep t = false <-> no_f21 sep t.
+Lemma wrecord_min sep r : wrecord sep r = mrecord sep r.
 Proof.
-  unfold has_f21, no_f21. split.
-  - intros H. apply Forall_forall. intros r Hr. apply Forall_forall. intros f Hf.
-    destruct (f21_field sep f) eqn:E; [|reflexivity].
-    assert (existsb (existsb (f21_field sep)) t = true); [|congruence].
-    apply existsb_exists. exists r. split; [exact Hr|]. apply existsb_exists. exists f. auto.
-  - intros H. destruct (existsb (existsb (f21_field sep)) t) eqn:E; [|reflexivity].
-    apply existsb_exists in E. destruct E as (r & Hr & E). apply existsb_exists in E. destruct E as (f & Hf & E).
-    rewrite Forall_forall in H. specialize (H r Hr). rewrite Forall_forall in H. rewrite (H f Hf) in E. discriminate.
+  destruct r as [|f r]; [reflexivity|].
+  cbn [wrecord mrecord]. rewrite wfield_min. f_equal.
+  unfold wtail. induction r as [|g r IH]; [reflexivity|]. cbn [flat_map]. rewrite wfield_min, IH. reflexivity.
 Qed.
 
-Lemma wfield_min sep f : f21_field sep f = false -> wfield sep f = mfield sep f.
-Proof. intros H. unfold wfield, mfield. rewrite (no_f21_quote sep f H). reflexivity. Qed.
-
-Lemma wrecord_min sep r : Forall (fun f => f21_field sep f = false) r -> wrecord sep r = mrecord sep r.
+Lemma lib_text_min sep t : lib_text sep t = min_text sep t.
 Proof.
-  intros F. destruct r as [|f r]; [reflexivity|]. inversion F as [|? ? Hf Fr]. subst.
-  cbn [wrecord mrecord]. rewrite (wfield_min sep f Hf). f_equal. clear F Hf.
-  unfold wtail. induction Fr as [|g r Hg Fr IH]; [reflexivity|]. cbn [flat_map]. rewrite (wfield_min sep g Hg), IH. reflexivity.
-Qed.
-
-Lemma lib_text_min sep t : no_f21 sep t -> lib_text sep t = min_text sep t.
-Proof.
-  unfold no_f21, lib_text, min_text. induction 1 as [|r t Hr Ft IH]; [reflexivity|].
-  cbn [flat_map]. rewrite (wrecord_min sep r Hr), IH. reflexivity.
+  unfold lib_text, min_text. induction t as [|r t IH]; [reflexivity|].
+  cbn [flat_map]. rewrite wrecord_min, IH. reflexivity.
 Qed.
 
 Lemma uniform_nonempty hdr rows : hdr <> [] -> uniform hdr rows -> Forall (fun r : record => r <> []) (hdr :: rows).
@@ -279,72 +254,27 @@ Proof.
   specialize (U r Hr). subst r. destruct hdr; [congruence|discriminate].
 Qed.
 
-(* outside F21 the writer's text is the minimal CRLF rendering of the table, hence parsed back by the reference parser *)
+(* the writer's text is the minimal CRLF rendering of the table (every field quoted exactly when RFC 4180 needs it),
+   hence parsed back by the reference parser *)
 Theorem csv_write_is_min_rendering sep hdr rows : allowed sep -> rows <> [] -> hdr <> [] -> uniform hdr rows ->
-  no_f21 sep (hdr :: rows) ->
   exists text, csv_write sep hdr rows = Ok text /\
     render sep (map (min_choice sep) (hdr :: rows)) true (hdr :: rows) = Some text.
 Proof.
-  intros A Hr Hh U NF. exists (lib_text sep (hdr :: rows)). split; [apply csv_write_closed; assumption|].
-  rewrite lib_text_min by exact NF. apply render_min; [discriminate|]. apply uniform_nonempty; assumption.
+  intros A Hr Hh U. exists (lib_text sep (hdr :: rows)). split; [apply csv_write_closed; assumption|].
+  rewrite lib_text_min. apply render_min; [discriminate|]. apply uniform_nonempty; assumption.
 Qed.
 
-Theorem csv_write_rfc_outside sep hdr rows : allowed sep -> rows <> [] -> hdr <> [] -> uniform hdr rows ->
-  no_f21 sep (hdr :: rows) ->
+Theorem csv_write_rfc sep hdr rows : allowed sep -> rows <> [] -> hdr <> [] -> uniform hdr rows ->
   exists text, csv_write sep hdr rows = Ok text /\ rfc_parse sep text = Some (hdr :: rows).
 Proof.
-  intros A Hr Hh U NF. destruct (csv_write_is_min_rendering sep hdr rows A Hr Hh U NF) as (text & E & R).
+  intros A Hr Hh U. destruct (csv_write_is_min_rendering sep hdr rows A Hr Hh U) as (text & E & R).
   exists text. split; [exact E|]. apply (render_parse sep _ true _ _ (allowed_sane sep A) R).
 Qed.
 
-(* F21: one column named h, one row holding x CR y *)
-Lemma csv_write_rfc_refuted : exists sep hdr rows, allowed sep /\ rows <> [] /\ hdr <> [] /\ uniform hdr rows /\
-  ~ (exists text, csv_write sep hdr rows = Ok text /\ rfc_parse sep text = Some (hdr :: rows)).
-Proof.
-  exists 44, [[104]], [[[120; 13; 121]]]. split; [cbn; auto|]. split; [discriminate|]. split; [discriminate|].
-  split; [repeat constructor|]. intros (text & E & P).
-  vm_compute in E. inversion E. subst text. vm_compute in P. discriminate P.
-Qed.
-
-Lemma csv_write_min_refuted : exists sep hdr rows, allowed sep /\ rows <> [] /\ hdr <> [] /\ uniform hdr rows /\
-  ~ (exists text, csv_write sep hdr rows = Ok text /\
-       render sep (map (min_choice sep) (hdr :: rows)) true (hdr :: rows) = Some text).
-Proof.
-  exists 44, [[104]], [[[120; 13; 121]]]. split; [cbn; auto|]. split; [discriminate|]. split; [discriminate|].
-  split; [repeat constructor|]. intros (text & E & P).
-  vm_compute in E. inversion E. subst text. vm_compute in P. discriminate P.
-Qed.
-
-(* field level: quoted exactly when the RFC needs it — except for the F21 class *)
-Lemma write_escaped_iff_needed_outside sep f out : f21_field sep f = false ->
+(* field level: quoted exactly when the RFC needs it *)
+Lemma write_escaped_iff_needed sep f out :
   write_escaped sep f out = out ++ (if needs_quote sep f then quoted f else f).
-Proof. intros H. rewrite write_escaped_spec. unfold wfield. rewrite (no_f21_quote sep f H). reflexivity. Qed.
-
-Lemma write_escaped_iff_needed_refuted : exists sep f out, allowed sep /\
-  write_escaped sep f out <> out ++ (if needs_quote sep f then quoted f else f).
-Proof. exists 44, [13], []. split; [cbn; auto|]. vm_compute. discriminate. Qed.
-
-(* the class is exactly "contains CR but neither DQUOTE, separator nor LF" *)
-Lemma f21_field_char sep f : f21_field sep f = true <->
-  In CR f /\ ~ In DQ f /\ ~ In sep f /\ ~ In LF f.
-Proof.
-  unfold f21_field, lib_quote, needs_quote. rewrite andb_true_iff, negb_true_iff. split.
-  - intros [H1 H2]. apply existsb_exists in H2. destruct H2 as (c & Hin & Hc).
-    assert (N : forall x, In x f -> must_escape sep x = false).
-    { intros x Hx. destruct (must_escape sep x) eqn:E; [|reflexivity].
-      assert (existsb (must_escape sep) f = true) by (apply existsb_exists; exists x; auto). congruence. }
-    assert (c = CR).
-    { specialize (N c Hin). unfold must_escape in N. unfold special in Hc.
-      rewrite !orb_false_iff in N. rewrite !orb_true_iff in Hc. rewrite !N.eqb_neq in N. rewrite !N.eqb_eq in Hc. tauto. }
-    subst c. split; [exact Hin|].
-    repeat split; intros Hx; specialize (N _ Hx); unfold must_escape in N;
-      rewrite !orb_false_iff, !N.eqb_neq in N; tauto.
-  - intros (H1 & H2 & H3 & H4). split.
-    + destruct (existsb (must_escape sep) f) eqn:E; [|reflexivity].
-      apply existsb_exists in E. destruct E as (c & Hin & Hc). unfold must_escape in Hc.
-      rewrite !orb_true_iff, !N.eqb_eq in Hc. destruct Hc as [[->| ->]| ->]; tauto.
-    + apply existsb_exists. exists CR. split; [exact H1|]. unfold special. rewrite N.eqb_refl, !orb_true_r. reflexivity.
-Qed.
+Proof. rewrite write_escaped_spec. unfold wfield. rewrite lib_quote_needs. reflexivity. Qed.
 
 (* the writer classes report a row of another width as OutOfRange; under SaveObject the report leaves
    ~CCsvWriteObjectScope (F18) *)
